@@ -126,7 +126,7 @@ def gen_cases(ctx, n):
         g = U.HistoryGen(rng, U.flatten(spec), hooks_p=0.3 if i % 4 else 0.0, allow_raise=(i % 2 == 0))
         n = rng.randrange(8, 26)
         cases.append((spec, g.exec_history(n) if i % 8 == 5 else g.sub_history(n) if i % 8 == 6
-                      else g.hook_history(n) if i % 8 in (1, 3) else g.history(n)))
+                      else g.hook_history(n) if i % 8 in (1, 3) else g.response_history(max(n, 30)) if i % 8 == 7 else g.history(n)))
     return cases
 
 
